@@ -218,3 +218,15 @@ chk("C08", "model_checking",
     "delivery timing is latitude (a late wake-up is tolerated until DONE). Which messages '*' selects and the completion of an empty COPY/MOVE are latitude, not verdicts.",
     "TLA+ spec + TLC exhaustive check (action properties, VIEW); transition-coverage replay into the real server; trace validation with a non-stopping judge",
     "DESIGN.md 3 (C08)", "tlc+harness/cmd/memviews")
+
+chk("C14", "model_checking",
+    "Lock templates of every command kind are mined from the working tree through a generated go-build-overlay instrumentation of every Mutex operation in imapserver and "
+    "imapmemserver (78 sites). Locks.tla runs any mined command on 2-3 (thorough 4) sessions over up to 3 shared mailboxes; TLC explores every interleaving and prints every "
+    "stuck state; each stuck signature is re-enacted on the real server through lock gates and counts only if the commands really never complete with the goroutines confirmed in "
+    "sync.(*Mutex).Lock at the predicted sites. Random 2-8-session stress histories are validated by LocksTrace (mutual exclusion, nothing held across commands, every acquisition "
+    "context covered by the mined lock-order edges).",
+    "Deadlock freedom is decided by TLC on mined templates after sound reductions (cross-checked against the unreduced 2-session model in thorough). Data-race freedom is NOT decided "
+    "by TLC: it is decided by the Go race detector on the re-enacted and stress schedules; races between accesses the drivers never overlap are not found. Blocking on channels or "
+    "socket writes is outside the model (clients drain).",
+    "TLA+ lock-template spec + TLC bounded exhaustive interleaving; schedule re-enactment through lock gates; trace validation; race-detector stress",
+    "DESIGN.md 3 (C14)", "tlc+harness/cmd/locks")
